@@ -386,11 +386,11 @@ def piEndHazard : Bool → List XTok → Bool
 
 /-! ## comparison of two documents on the token level (harness oracle) -/
 
-/-- the tokens outside processing instructions -/
+/-- the tokens without the data items of processing instructions (`<?target` and `?>` stay) -/
 def dropPi : Bool → List XTok → List XTok
   | _, [] => []
-  | _, .startTagPI _ :: r => dropPi true r
-  | _, .startTagClosePI :: r => dropPi false r
+  | _, .startTagPI n :: r => .startTagPI n :: dropPi true r
+  | _, .startTagClosePI :: r => .startTagClosePI :: dropPi false r
   | true, _ :: r => dropPi true r
   | false, t :: r => t :: dropPi false r
 
@@ -407,7 +407,7 @@ def piList : List XTok → List (List Char × List DCh)
 
 /-- failing clauses when the document `o` is compared with the document `i` (both byte strings): `lex` (the
 input is accepted by the tokeniser, the output is not), the clauses of `Spec.Xml.holds` on the tokens outside
-PIs (`wf`, `struct`, `attr`, `doctype`, `chars`), `pi` (targets and data of the PIs).  Empty when `i` is not
+PI data (`wf`, `struct`, `attr`, `pi`, `doctype`, `chars`), `pidata` (targets and data of the PIs).  Empty when `i` is not
 accepted (the minifiers are no validators). -/
 def compareDocs (keep : Bool) (i o : List Char) : List String :=
   match xmlTokens i with
@@ -417,6 +417,6 @@ def compareDocs (keep : Bool) (i o : List Char) : List String :=
     | none => ["lex"]
     | some to =>
       holds keep (dropPi false ti) (dropPi false to) ++
-        (if piList ti == piList to then [] else ["pi"])
+        (if piList ti == piList to then [] else ["pidata"])
 
 end Verif.Spec.C09XmlLex
